@@ -71,11 +71,12 @@ def unit_specs(tier):
     inc = ["-std=c++17", "-I" + os.path.join(REPO, "gmlc"), "-UNDEBUG"]
     drv = os.path.join(VERIF, "drivers", "inst.cpp")
     units = [("inst_vp0", drv, inc + ["-DVP=0"], [os.path.join(REPO, "gmlc")]),
+             ("inst_vp1", drv, inc + ["-DVP=1"], [os.path.join(REPO, "gmlc")]),
              ("fixtures", os.path.join(VERIF, "fixtures", "fx.cpp"),
               ["-std=c++17", "-UNDEBUG", "-I" + os.path.join(VERIF, "fixtures")],
               [os.path.join(VERIF, "fixtures")])]
     if tier == "thorough":
-        for vp in (1, 2, 3, 4):
+        for vp in (2, 3, 4):
             units.append(("inst_vp%d" % vp, drv, inc + ["-DVP=%d" % vp], [os.path.join(REPO, "gmlc")]))
         units.append(("inst_vp2_tripwire", drv, inc + ["-DVP=2", "-DENABLE_TRIPWIRE"],
                       [os.path.join(REPO, "gmlc")]))
